@@ -18,6 +18,10 @@ pub static ALL: &[&'static dyn Check] = &[&c01::C01, &c02::C02, &c03::C03, &c12:
 /// byte-identical. The caller runs this in several processes at different worker counts and diffs
 /// the printed digests.
 pub fn selftest_determinism(check: &dyn Check, seed: u64, cases: u64) -> i32 {
+    if check.arm_allocator() {
+        crate::kernel::alloc::arm(true);
+    }
+    crate::kernel::worker::install_panic_hook();
     let mut digest = prng::Fnv::new();
     let mut diverged = 0u64;
     let n = cases.min(check.n_cases(Tier::Quick));
@@ -121,4 +125,467 @@ pub fn selftest_domain(seed: u64, cases: u64, only: Option<&str>) -> i32 {
     }
     println!("selftest domain: reads={n} bad={bad}");
     if bad == 0 { 0 } else { 1 }
+}
+
+/// Async twin validation (`nsim selftest async --cases N [--seed S] [--kind K] [--max-print M]`):
+/// for `cases` seeds x every kind x size class 0..=3, the file is built with `kinds::make`; then
+/// under the plain async plan and under three adversarial plans (`c16::gen_aio`) every async
+/// reader variant, the async writer and the async query twin of fmt::aio run inside async-sim
+/// (`aexec::run`) and are compared with their sync counterparts:
+/// (a) `aread` vs `kinds::read(kind, variant, Source::plain(..))`: items, bytes, end class;
+/// (b) `awrite` vs `kinds::write_to`: decode(async bytes) == decode(sync bytes) (`kinds::read`
+///     variant 0 + `content_items`), async output reads to Eof, and raw byte equality for formats
+///     that are neither BGZF containers nor otherwise compressed;
+/// (c) `aquery` vs `fmt::query::query`: items and end class.
+/// Every mismatch is printed (at most `--max-print` per class, default 10; all are counted) with
+/// kind / variant / file spec / plan / workers and the first differing item. A case that does not
+/// finish within 120 s is reported as HANG (missed wake-up: the driverless runtime parks for good)
+/// and ends the process with status 3.
+pub fn selftest_async(seed: u64, cases: u64, only: Option<&str>, max_print: u64) -> i32 {
+    use std::collections::BTreeMap;
+    use std::sync::{Arc, Mutex};
+    use std::time::{Duration, Instant};
+
+    use crate::aexec;
+    use crate::fmt::{End, Obs, Source, aio as faio, clip, first_diff, kinds, observe, query};
+    use crate::kernel::Rng;
+    use crate::seams::aio::{AioCounters, AioPlan, SharedAio, SimAsyncRead, SimAsyncWrite};
+
+    fn end_class(e: &End) -> String {
+        match e {
+            End::Eof => "eof".into(),
+            End::Err { kind, .. } => format!("err:{kind}"),
+            End::Panic { witness, .. } => format!("panic:{witness}"),
+        }
+    }
+    fn obs_diff(o0: &Obs, o1: &Obs) -> String {
+        if std::env::var_os("NSIM_ASYNC_DUMP").is_some() {
+            println!("DUMP sync  items: {:#?}\nDUMP async items: {:#?}", o0.items.iter().map(|s| clip(s)).collect::<Vec<_>>(), o1.items.iter().map(|s| clip(s)).collect::<Vec<_>>());
+        }
+        match first_diff(&o0.items, &o1.items) {
+            Some(i) => format!(
+                "item {i}: sync {} / async {}; {} vs {} items; ends: sync {:?} / async {:?}",
+                o0.items.get(i).map(|s| clip(s)).unwrap_or_else(|| "<none>".into()),
+                o1.items.get(i).map(|s| clip(s)).unwrap_or_else(|| "<none>".into()),
+                o0.items.len(),
+                o1.items.len(),
+                o0.end,
+                o1.end
+            ),
+            None if o0.bytes != o1.bytes => {
+                let at = o0.bytes.iter().zip(&o1.bytes).position(|(a, b)| a != b).unwrap_or(o0.bytes.len().min(o1.bytes.len()));
+                format!("same {} items; bytes differ at {at} (sync {} / async {} bytes); ends: sync {:?} / async {:?}", o0.items.len(), o0.bytes.len(), o1.bytes.len(), o0.end, o1.end)
+            }
+            None => format!("same {} items and {} bytes; ends: sync {:?} / async {:?}", o0.items.len(), o0.bytes.len(), o0.end, o1.end),
+        }
+    }
+
+    // watchdog: the case being run and when it started
+    let current: Arc<Mutex<Option<(String, Instant)>>> = Arc::new(Mutex::new(None));
+    {
+        let current = current.clone();
+        std::thread::spawn(move || {
+            loop {
+                std::thread::sleep(Duration::from_secs(2));
+                let c = current.lock().unwrap().clone();
+                if let Some((what, since)) = c {
+                    if since.elapsed() > Duration::from_secs(120) {
+                        println!("HANG (no completion within 120 s; missed wake-up or unbounded loop): {what}");
+                        std::process::exit(3);
+                    }
+                }
+            }
+        });
+    }
+    let begin = |what: String| *current.lock().unwrap() = Some((what, Instant::now()));
+    let done = || *current.lock().unwrap() = None;
+
+    // mismatch classes: "<op> <kind> <variant>: <class>" -> (count, first example)
+    let mut classes: BTreeMap<String, (u64, String)> = BTreeMap::new();
+    let mut bad = 0u64;
+    let mut report = |bad: &mut u64, class: String, detail: String| {
+        *bad += 1;
+        let e = classes.entry(class.clone()).or_insert_with(|| (0, detail.clone()));
+        e.0 += 1;
+        if e.0 <= max_print {
+            println!("MISMATCH {class} :: {detail}");
+        }
+    };
+
+    if only.is_none() {
+        async_probes();
+    }
+    let t0 = Instant::now();
+    let (mut files, mut n_read, mut n_write, mut n_query) = (0u64, 0u64, 0u64, 0u64);
+    let (mut skipped_read, mut skipped_write, mut skipped_write_model, mut skipped_query) = (0u64, 0u64, 0u64, 0u64);
+    let mut byte_identical_compressed = (0u64, 0u64);
+    let mut polls = 0u64;
+    let mut pendings = 0u64;
+    let mut per_kind: BTreeMap<&'static str, [u64; 3]> = BTreeMap::new();
+    let mut sync_time = Duration::ZERO;
+    let mut make_time = Duration::ZERO;
+
+    for idx in 0..cases {
+        for &kind in kinds::ALL_KINDS {
+            if only.is_some_and(|o| o != kind.name()) {
+                continue;
+            }
+            for size_class in 0..=3u8 {
+                let mut rng = Rng::new(prng::derive(seed, &format!("async-selftest-{}-{size_class}", kind.name()), idx));
+                let spec = kinds::FileSpec { kind, size_class, seed: rng.next_u64() };
+                let tm = Instant::now();
+                let made = match crate::kernel::catch(|| kinds::make(&spec)) {
+                    Ok(Ok(m)) => m,
+                    Ok(Err(e)) => {
+                        report(&mut bad, format!("make {}", kind.name()), format!("{spec:?}: {e}"));
+                        continue;
+                    }
+                    Err(p) => {
+                        report(&mut bad, format!("make-panic {}", kind.name()), format!("{spec:?}: {} {}", p.location, p.message));
+                        continue;
+                    }
+                };
+                make_time += tm.elapsed();
+                files += 1;
+                let mut plans = vec![AioPlan::plain()];
+                while plans.len() < 4 {
+                    let p = c16::gen_aio(&mut rng);
+                    if p.is_adversarial() {
+                        plans.push(p);
+                    }
+                }
+
+                // sync observations, once per file
+                let ts = Instant::now();
+                let sync_reads: Vec<Option<Obs>> = (0..kind.variants())
+                    .map(|v| faio::has_async_reader(kind, v).then(|| kinds::read(kind, v, Source::plain(made.bytes.clone()))))
+                    .collect();
+                let want_write = faio::has_async_writer(kind) && faio::async_writer_supports(&made.model);
+                let sync_write: Option<(Vec<u8>, Obs)> = want_write.then(|| {
+                    let mut sync_bytes = Vec::new();
+                    crate::kernel::fresh_thread(|| kinds::write_to(kind, &made.model, &mut sync_bytes)).unwrap_or_else(|e| panic!("harness: sync write failed: {e}"));
+                    let os = kinds::read(kind, 0, Source::plain(Arc::new(sync_bytes.clone())));
+                    (sync_bytes, os)
+                });
+                let sync_query: Option<(kinds::Kind, Arc<Vec<u8>>, Obs)> = match &made.companion {
+                    Some((dk, data)) if faio::has_async_query(kind, *dk) => {
+                        let o = observe(|o| query::query(kind, &made.bytes, *dk, data.clone(), &mut o.items));
+                        Some((*dk, data.clone(), o))
+                    }
+                    Some(_) => {
+                        skipped_query += 1;
+                        None
+                    }
+                    None => None,
+                };
+                sync_time += ts.elapsed();
+                skipped_read += sync_reads.iter().filter(|o| o.is_none()).count() as u64;
+                if !faio::has_async_writer(kind) {
+                    skipped_write += 1;
+                } else if !want_write {
+                    skipped_write_model += 1;
+                }
+
+                for (pi, plan) in plans.iter().enumerate() {
+                    let workers = 1 + rng.usize_below(8);
+                    let ctx = |what: &str| format!("{what} spec={} plan#{pi}={} workers={workers}", serde_json::to_string(&spec).unwrap(), serde_json::to_string(plan).unwrap());
+                    let new_counters = || -> SharedAio {
+                        let c: SharedAio = Arc::new(Mutex::new(AioCounters::default()));
+                        c.lock().unwrap().budget = 40_000_000;
+                        c
+                    };
+                    let mut tally = |c: &SharedAio| {
+                        let c = c.lock().unwrap();
+                        polls += c.polls + c.gate_polls;
+                        pendings += c.pending;
+                    };
+
+                    // (a) readers
+                    for variant in 0..kind.variants() {
+                        let Some(o0) = &sync_reads[variant as usize] else { continue };
+                        let vn = kinds::variant_name(kind, variant);
+                        let what = ctx(&format!("read kind={} variant={variant}({vn})", kind.name()));
+                        begin(what.clone());
+                        let counters = new_counters();
+                        let src = SimAsyncRead::new(made.bytes.clone(), plan.clone(), counters.clone());
+                        let r = aexec::run(plan, counters.clone(), || faio::aread(kind, variant, src, workers));
+                        done();
+                        tally(&counters);
+                        n_read += 1;
+                        per_kind.entry(kind.name()).or_default()[0] += 1;
+                        match r {
+                            Err(pn) => report(&mut bad, format!("read {} {vn}: async panic {}", kind.name(), pn.witness()), format!("{what}: panic at {}: {}; sync: {}", pn.location, pn.message, o0.summary())),
+                            Ok(o1) => {
+                                if o0.items != o1.items || o0.bytes != o1.bytes || end_class(&o0.end) != end_class(&o1.end) {
+                                    report(&mut bad, format!("read {} {vn}: observation", kind.name()), format!("{what}: {}", obs_diff(o0, &o1)));
+                                }
+                            }
+                        }
+                    }
+
+                    // (b) writer
+                    if let Some((sync_bytes, os)) = &sync_write {
+                        let what = ctx(&format!("write kind={}", kind.name()));
+                        begin(what.clone());
+                        let counters = new_counters();
+                        let sink = SimAsyncWrite::new(plan.clone(), counters.clone());
+                        let s2 = sink.clone();
+                        let r = crate::kernel::fresh_thread(|| aexec::run(plan, counters.clone(), || faio::awrite(kind, &made.model, s2, workers)));
+                        done();
+                        tally(&counters);
+                        n_write += 1;
+                        per_kind.entry(kind.name()).or_default()[1] += 1;
+                        match r {
+                            Err(pn) => report(&mut bad, format!("write {}: async panic {}", kind.name(), pn.witness()), format!("{what}: panic at {}: {}", pn.location, pn.message)),
+                            Ok(Err(e)) => report(&mut bad, format!("write {}: async error on a fault-free sink", kind.name()), format!("{what}: {e}")),
+                            Ok(Ok(())) => {
+                                let out = Arc::new(sink.data());
+                                let oa = kinds::read(kind, 0, Source::plain(out.clone()));
+                                let (ia, is) = (kinds::content_items(&oa.items), kinds::content_items(&os.items));
+                                if ia != is || oa.bytes != os.bytes || oa.end != End::Eof {
+                                    let i = first_diff(&is, &ia);
+                                    report(
+                                        &mut bad,
+                                        format!("write {}: decoded output", kind.name()),
+                                        format!(
+                                            "{what}: decode(async output, {} bytes) != decode(sync output, {} bytes): first difference at item {i:?}: sync {:?} / async {:?}; decode ends: sync {:?} / async {:?}",
+                                            out.len(),
+                                            sync_bytes.len(),
+                                            i.and_then(|i| is.get(i)).map(|s| clip(s)),
+                                            i.and_then(|i| ia.get(i)).map(|s| clip(s)),
+                                            os.end,
+                                            oa.end
+                                        ),
+                                    );
+                                } else if !kind.is_bgzf_container() && !faio::compressed_kind(kind) {
+                                    if *out != *sync_bytes {
+                                        let at = out.iter().zip(sync_bytes).position(|(a, b)| a != b).unwrap_or(out.len().min(sync_bytes.len()));
+                                        report(&mut bad, format!("write {}: bytes", kind.name()), format!("{what}: uncompressed format: async output ({} bytes) differs from sync output ({} bytes) at offset {at}", out.len(), sync_bytes.len()));
+                                    }
+                                } else {
+                                    byte_identical_compressed.1 += 1;
+                                    if *out == *sync_bytes {
+                                        byte_identical_compressed.0 += 1;
+                                    }
+                                }
+                                if !sink.state.lock().unwrap().shutdown {
+                                    report(&mut bad, format!("write {}: inner sink not shut down", kind.name()), format!("{what}: the protocol's finishing call returned Ok but poll_shutdown never completed on the sink"));
+                                }
+                            }
+                        }
+                    }
+
+                    // (c) query
+                    if let Some((dk, data, o0)) = &sync_query {
+                        let what = ctx(&format!("query index={} data={}", kind.name(), dk.name()));
+                        begin(what.clone());
+                        let counters = new_counters();
+                        let src = SimAsyncRead::new(data.clone(), plan.clone(), counters.clone());
+                        let idx_bytes = made.bytes.clone();
+                        let r = aexec::run(plan, counters.clone(), || faio::aquery(kind, idx_bytes, *dk, src, workers));
+                        done();
+                        tally(&counters);
+                        n_query += 1;
+                        per_kind.entry(kind.name()).or_default()[2] += 1;
+                        match r {
+                            Err(pn) => report(&mut bad, format!("query {}->{}: async panic {}", kind.name(), dk.name(), pn.witness()), format!("{what}: panic at {}: {}; sync: {}", pn.location, pn.message, o0.summary())),
+                            Ok(o1) => {
+                                if o0.items != o1.items || end_class(&o0.end) != end_class(&o1.end) {
+                                    report(&mut bad, format!("query {}->{}: results", kind.name(), dk.name()), format!("{what}: {}", obs_diff(o0, &o1)));
+                                }
+                            }
+                        }
+                    }
+                }
+            }
+        }
+    }
+    let dt = t0.elapsed();
+    let evals = n_read + n_write + n_query;
+    println!("selftest async: coverage per kind (async read / write / query evaluations):");
+    for (k, [r, w, q]) in &per_kind {
+        println!("  {k:16} read={r:<7} write={w:<7} query={q}");
+    }
+    println!(
+        "selftest async: not covered (per file): reader variants without async twin={skipped_read} kinds without async writer={skipped_write} models the async writer cannot be configured for={skipped_write_model} index/data pairs without async query={skipped_query}"
+    );
+    println!(
+        "selftest async: compressed/BGZF outputs byte-identical to the sync output: {}/{}",
+        byte_identical_compressed.0, byte_identical_compressed.1
+    );
+    if !classes.is_empty() {
+        println!("selftest async: mismatch classes:");
+        for (c, (n, first)) in &classes {
+            println!("  {n:>6} x {c}\n           first: {first}");
+        }
+    }
+    println!(
+        "selftest async: seeds={cases} files={files} evaluations={evals} (read={n_read} write={n_write} query={n_query}) mismatches={bad} polls={polls} pending={pendings} elapsed={:.1}s (make {:.1}s, sync twins {:.1}s) throughput={:.0} evaluations/s",
+        dt.as_secs_f64(),
+        make_time.as_secs_f64(),
+        sync_time.as_secs_f64(),
+        evals as f64 / dt.as_secs_f64().max(1e-9)
+    );
+    if bad == 0 { 0 } else { 1 }
+}
+
+/// Minimal reproducers of the async-vs-sync differences met while validating fmt::aio on the
+/// pinned tree; prints one `PROBE` line each (facts about the tree under test, not pass/fail).
+pub fn async_probes() {
+    use std::sync::{Arc, Mutex};
+
+    use futures::TryStreamExt;
+
+    use crate::aexec;
+    use crate::fmt::kinds;
+    use crate::seams::aio::{AioCounters, AioPlan, Part, SharedAio, SimAsyncRead};
+
+    let counters = || -> SharedAio { Arc::new(Mutex::new(AioCounters::default())) };
+    let plain = AioPlan::plain();
+
+    // B: the same region queried twice on one async BAM reader
+    {
+        let spec = kinds::FileSpec { kind: kinds::Kind::Bai, size_class: 1, seed: 1 };
+        if let Ok(made) = kinds::make(&spec) {
+            if let Some((_, bam)) = made.companion.clone() {
+                let sync_counts = (|| -> std::io::Result<Vec<usize>> {
+                    let index = noodles_bam::bai::io::Reader::new(&made.bytes[..]).read_index()?;
+                    let mut r = noodles_bam::io::Reader::new(std::io::Cursor::new(&bam[..]));
+                    let header = r.read_header()?;
+                    let Some(name) = header.reference_sequences().keys().next().map(|k| k.to_string()) else { return Ok(vec![]) };
+                    let region: noodles_core::Region = name.parse().map_err(std::io::Error::other)?;
+                    let mut out = Vec::new();
+                    for _ in 0..3 {
+                        out.push(r.query(&header, &index, &region)?.records().count());
+                    }
+                    Ok(out)
+                })();
+                let c = counters();
+                let src = SimAsyncRead::new(bam.clone(), plain.clone(), c.clone());
+                let idx = made.bytes.clone();
+                let async_counts = aexec::run(&plain, c, || async move {
+                    let index = noodles_bam::bai::r#async::io::Reader::new(&idx[..]).read_index().await?;
+                    let mut r = noodles_bam::r#async::io::Reader::new(src);
+                    let header = r.read_header().await?;
+                    let Some(name) = header.reference_sequences().keys().next().map(|k| k.to_string()) else { return Ok(vec![]) };
+                    let region: noodles_core::Region = name.parse().map_err(std::io::Error::other)?;
+                    let mut out = Vec::new();
+                    for _ in 0..3 {
+                        let mut s = r.query(&header, &index, &region)?.records();
+                        let mut n = 0usize;
+                        while s.try_next().await?.is_some() {
+                            n += 1;
+                        }
+                        out.push(n);
+                    }
+                    Ok::<_, std::io::Error>(out)
+                });
+                println!("PROBE B (bgzf::async::io::Reader::poll_seek to the target of the previous poll_seek is a no-op): the same region queried 3 times on one BAM reader yields record counts sync {sync_counts:?} / async {:?}", async_counts.map_err(|p| p.message));
+            }
+        }
+    }
+
+    // A: CSI index written by the async writer
+    {
+        let spec = kinds::FileSpec { kind: kinds::Kind::Csi, size_class: 1, seed: 1 };
+        if let Ok(kinds::Made { model: kinds::Model::Csi(index), .. }) = kinds::make(&spec) {
+            let mut sync_file = Vec::new();
+            let _ = crate::fmt::index::write_csi(&mut sync_file, &index);
+            let index = Arc::new(index);
+            let i2 = index.clone();
+            let c = counters();
+            let async_file = aexec::run(&plain, c, || async move {
+                let mut w = noodles_csi::r#async::io::Writer::new(Vec::new());
+                w.write_index(&i2).await?;
+                w.shutdown().await?;
+                Ok::<_, std::io::Error>(w.into_inner().into_inner())
+            });
+            match async_file {
+                Ok(Ok(af)) => {
+                    let inflate = |f: &[u8]| crate::model::bgzf::walk(f).map(|w| w.data).unwrap_or_default();
+                    let (su, au) = (inflate(&sync_file), inflate(&af));
+                    let at = su.iter().zip(&au).position(|(a, b)| a != b);
+                    let sync_read = noodles_csi::io::Reader::new(&af[..]).read_index().map(|_| "Ok").map_err(|e| e.to_string());
+                    let af2 = af.clone();
+                    let async_read = aexec::run(&plain, counters(), || async move { noodles_csi::r#async::io::Reader::new(&af2[..]).read_index().await.map(|_| "Ok").map_err(|e| e.to_string()) });
+                    println!(
+                        "PROBE A (csi::async::io::Writer omits n_ref): uncompressed index: sync writer {} bytes / async writer {} bytes, first difference at offset {at:?} (sync bytes there {:02x?} = n_ref of {} reference sequences); the async writer's file read by the sync reader: {sync_read:?}, by the async reader: {:?}",
+                        su.len(),
+                        au.len(),
+                        at.and_then(|a| su.get(a..a + 4)),
+                        noodles_csi::BinningIndex::reference_sequences(&*index).count(),
+                        async_read.map_err(|p| p.message)
+                    );
+                }
+                other => println!("PROBE A: async write failed: {:?}", other.map_err(|p| p.message).map(|r| r.map(|_| ()).map_err(|e| e.to_string()))),
+            }
+        }
+    }
+
+    // C: CRAI with two records read by the async reader
+    {
+        use noodles_cram::crai;
+        let text = "0\t1\t10\t100\t20\t300\n0\t11\t10\t400\t20\t300\n";
+        let mut gz = Vec::new();
+        let index: crai::Index = crai::io::Reader::new(&{
+            // gzip through the sync writer
+            let recs: Vec<crai::Record> = text
+                .lines()
+                .map(|l| {
+                    let f: Vec<u64> = l.split('\t').map(|x| x.parse().unwrap()).collect();
+                    crai::Record::new(Some(f[0] as usize), noodles_core::Position::new(f[1] as usize), f[2] as usize, f[3], f[4], f[5])
+                })
+                .collect();
+            let _ = crate::fmt::index::write_crai(&mut gz, &recs);
+            gz.clone()
+        }[..])
+        .read_index()
+        .unwrap_or_default();
+        let gz2 = gz.clone();
+        let one = {
+            let mut g1 = Vec::new();
+            let _ = crate::fmt::index::write_crai(&mut g1, &index[..1.min(index.len())].to_vec());
+            g1
+        };
+        let a2 = aexec::run(&plain, counters(), || async move { crai::r#async::io::Reader::new(&gz2[..]).read_index().await.map(|i| i.len()).map_err(|e| e.to_string()) });
+        let a1 = aexec::run(&plain, counters(), || async move { crai::r#async::io::Reader::new(&one[..]).read_index().await.map(|i| i.len()).map_err(|e| e.to_string()) });
+        println!(
+            "PROBE C (crai::async::io::Reader::read_index does not clear its line buffer between records): a 2-record index: sync reader Ok({}) records / async reader {:?}; a 1-record index: async reader {:?}",
+            index.len(),
+            a2.map_err(|p| p.message),
+            a1.map_err(|p| p.message)
+        );
+    }
+
+    // D: FASTA CRLF sequence lines delivered one byte per poll
+    {
+        let text = Arc::new(b">s\r\nAC\r\nGT\r\n".to_vec());
+        let mut sync_seq = Vec::new();
+        {
+            let mut r = noodles_fasta::io::Reader::new(&text[..]);
+            let mut d = noodles_fasta::record::Definition::default();
+            let _ = r.read_definition(&mut d);
+            let _ = r.read_sequence(&mut sync_seq);
+        }
+        let run = |plan: AioPlan| {
+            let c = counters();
+            let src = SimAsyncRead::new(text.clone(), plan.clone(), c.clone());
+            aexec::run(&plan, c, || async move {
+                let mut r = noodles_fasta::r#async::io::Reader::new(tokio::io::BufReader::new(src));
+                let mut d = noodles_fasta::record::Definition::default();
+                r.read_definition(&mut d).await?;
+                let mut seq = Vec::new();
+                r.read_sequence(&mut seq).await?;
+                Ok::<_, std::io::Error>(String::from_utf8_lossy(&seq).into_owned())
+            })
+            .map_err(|p| p.message)
+        };
+        let one = AioPlan { part: Part::One, ..AioPlan::plain() };
+        println!(
+            "PROBE D (fasta::async::io::Reader::read_sequence strips CR only when CR and LF arrive in the same fill_buf window): \">s\\r\\nAC\\r\\nGT\\r\\n\": sync {:?} / async, full reads {:?} / async, 1 byte per poll_read {:?}",
+            String::from_utf8_lossy(&sync_seq),
+            run(AioPlan::plain()),
+            run(one)
+        );
+    }
 }
